@@ -587,6 +587,65 @@ def splice_spec(item, pc, text):
     pc.insert(t[p].e, "\n" + text.rstrip() + "\n", "R-SPLICE")
 
 
+def rule_foreach(item, pc, inv_text=None, iter_name=None):
+    """R-FOREACH: the statement `RECV.for_each(|PAT| BODY);` becomes `for PAT in RECV { BODY; }` -- std documents
+    Iterator::for_each as equivalent to a `for` loop over the iterator (no break/continue possible in a closure).
+    A wildcard pattern `_` is given a name (`_each__`), since Verus accepts only variables there.  Applied to every
+    `.for_each(` call that is a whole expression statement; anything else is refused."""
+    if item.body_open is None:
+        return
+    src, t = item.src, item.src.toks
+    i = item.body_open + 1
+    while i < item.body_close:
+        if t[i].kind == "ident" and t[i].text == "for_each" and t[src.prev_sig(i)].text == "." and t[src.sig(i + 1)].text == "(":
+            dot = src.prev_sig(i)
+            op = src.sig(i + 1)
+            cl = src.match(op)
+            semi = src.sig(cl + 1)
+            if t[semi].text != ";":
+                raise ExtractError("R-FOREACH refused: for_each call is not a whole statement")
+            # statement start: token after the previous `;`, `{` or `}` at this nesting level
+            j = dot - 1
+            depth = 0
+            while True:
+                if t[j].text == "}" and depth == 0:
+                    break  # end of a preceding block statement
+                if t[j].text in CLOSE:
+                    depth += 1
+                elif t[j].text in OPEN:
+                    if depth == 0:
+                        break
+                    depth -= 1
+                elif t[j].text == ";" and depth == 0:
+                    break
+                j -= 1
+            start = src.sig(j + 1)
+            p1 = src.sig(op + 1)
+            if t[p1].text != "|":
+                raise ExtractError("R-FOREACH refused: argument is not a closure literal")
+            p2 = p1 + 1
+            while t[p2].text != "|":
+                p2 += 1
+            pat = src.text[t[p1].e:t[p2].s].strip()
+            if not re.match(r"^(_|[A-Za-z_][A-Za-z0-9_]*)$", pat):
+                raise ExtractError(f"R-FOREACH refused: closure parameter {pat!r} is not a plain variable or `_`")
+            name = "_each__" if pat == "_" else pat
+            body_s = src.sig(p2 + 1)
+            braced = t[body_s].text == "{" and src.match(body_s) == src.prev_sig(cl)
+            pc.insert(t[start].s, f"for {name} in " + (f"{iter_name}: " if iter_name else ""), "R-FOREACH")
+            spec = ("\n" + inv_text.rstrip() + "\n") if inv_text else ""
+            pc.delete(t[dot].s, t[body_s].s, "R-FOREACH", "`.for_each(|p|` -> loop header")
+            if not braced:
+                pc.insert(t[dot].s, spec + " { ", "R-FOREACH")
+                pc.delete(t[cl].s, t[semi].e, "R-FOREACH")
+                pc.insert(t[cl].s, "; }", "R-FOREACH")
+            else:
+                pc.insert(t[dot].s, spec + " ", "R-FOREACH")
+                pc.delete(t[cl].s, t[semi].e, "R-FOREACH")
+            i = semi
+        i += 1
+
+
 def rule_hoist(item, pc, ordinal, literal, name):
     """R-HOIST: `for x in PRE<literal>POST {` -> `let name = <literal>; for x in PRE name POST {`.
     The iterable expression of a `for` is evaluated exactly once, at loop entry, so binding one of its sub-expressions
